@@ -8,6 +8,7 @@ from __future__ import unicode_literals
 
 from django_evolution.compat import six
 from django_evolution.compat.models import get_model_name
+from django_evolution.errors import EvolutionException
 from django_evolution.models import Evolution
 from django_evolution.support import supports_migrations
 from django_evolution.utils.apps import get_app_label
@@ -33,6 +34,26 @@ class NodeNotFoundError(Exception):
         super(NodeNotFoundError, self).__init__(
             'A graph node with key "%s" was not found.'
             % key)
+
+
+class CircularDependencyError(EvolutionException):
+    """Dependencies between nodes form a cycle and cannot all be satisfied.
+
+    Version Added:
+        2.4
+    """
+
+    def __init__(self, keys):
+        """Initialize the error.
+
+        Args:
+            keys (list of unicode):
+                The keys of the nodes that could not be ordered.
+        """
+        super(CircularDependencyError, self).__init__(
+            'The dependencies between the following cannot all be '
+            'satisfied (they form a cycle): %s'
+            % ', '.join(sorted(keys)))
 
 
 class Node(object):
@@ -319,6 +340,23 @@ class DependencyGraph(object):
                                         reverse=True)
 
                         processed.add(node)
+
+        # Make sure every node was placed after all of its dependencies.
+        # If not, there's a cycle, and the order can't be trusted.
+        positions = dict(
+            (node, i)
+            for i, node in enumerate(result)
+        )
+        unordered = [
+            node.key
+            for node in six.itervalues(self._nodes)
+            if (node not in positions or
+                any(positions.get(dep, len(result)) > positions[node]
+                    for dep in node.dependencies))
+        ]
+
+        if unordered:
+            raise CircularDependencyError(unordered)
 
         return result
 
